@@ -365,6 +365,9 @@ pub fn run(seed: u64, cfg: ExecCfg, root: impl FnOnce(&Rc<Inner>)) -> Outcome {
                 inner.tasks.borrow_mut()[id].fut = Some(fut);
             }
             Ok(Poll::Ready(())) => {
+                if let TaskKind::Actor(a) = inner.tasks.borrow()[id].kind {
+                    emit(format!("tdone {}", a));
+                }
                 drop(fut);
             }
             Err(_) => {
